@@ -52,8 +52,10 @@ func (s *Shrinker[P]) Shrink(c Candidate[P]) Candidate[P] {
 	for round := 0; round < 6 && time.Now().Before(deadline); round++ {
 		changed := false
 		// 1. drop chunks of operations
-		for chunk := s.NOps(c.Plan); chunk >= 1; chunk /= 2 {
-			for i := 0; i+chunk <= s.NOps(c.Plan); {
+		// (every loop stops at the deadline: building the candidates of a plan of
+		// thousands of operations costs as much as running them)
+		for chunk := s.NOps(c.Plan); chunk >= 1 && time.Now().Before(deadline); chunk /= 2 {
+			for i := 0; i+chunk <= s.NOps(c.Plan) && time.Now().Before(deadline); {
 				n := Candidate[P]{Plan: s.Remove(c.Plan, i, i+chunk), Tape: s.removeSegs(c.Tape, i, i+chunk)}
 				if try(n) {
 					c = n
@@ -77,6 +79,9 @@ func (s *Shrinker[P]) Shrink(c Candidate[P]) Candidate[P] {
 					if len(c.Tape.Segs[i]) == 0 {
 						continue
 					}
+					if time.Now().After(deadline) {
+						break
+					}
 					z := c.Tape.Clone()
 					z.Segs[i] = nil
 					if try(Candidate[P]{Plan: c.Plan, Tape: z}) {
@@ -99,6 +104,9 @@ func (s *Shrinker[P]) Shrink(c Candidate[P]) Candidate[P] {
 					for j := range c.Tape.Segs[i] {
 						if c.Tape.Segs[i][j] == 0 {
 							continue
+						}
+						if time.Now().After(deadline) {
+							break
 						}
 						z := c.Tape.Clone()
 						z.Segs[i][j] = 0
